@@ -1,0 +1,35 @@
+//go:build verif
+
+// Contracts for package basestore, read by /verif/govc. Comments only.
+package basestore
+
+// ---- C19: replication status never regresses ----
+
+//@ func (*BaseStore).recalculateReplicationMax
+//@   props C19
+//@   ensures statusMax(b.replicationStatus) >= old(statusMax(b.replicationStatus))
+//@   ensures statusMax(b.replicationStatus) >= old(max)
+//@   ensures statusMax(b.replicationStatus) >= logLen(b.oplog)
+//@   ensures statusMax(b.replicationStatus) == max3(old(max), logLen(b.oplog), old(statusMax(b.replicationStatus)))
+//@   modifies statusMax(b.replicationStatus)
+
+//@ func (*BaseStore).recalculateReplicationProgress
+//@   props C19
+//@   requires statusProgress(b.replicationStatus) <= statusMax(b.replicationStatus)
+//@   ensures statusProgress(b.replicationStatus) == max(min(statusMax(b.replicationStatus), old(statusProgress(b.replicationStatus)) + 1), logLen(b.oplog))
+//@   ensures statusProgress(b.replicationStatus) >= old(statusProgress(b.replicationStatus))
+//@   ensures statusProgress(b.replicationStatus) >= logLen(b.oplog)
+//@   ensures logLen(b.oplog) <= statusMax(b.replicationStatus) ==> statusProgress(b.replicationStatus) <= statusMax(b.replicationStatus)
+//@   modifies statusProgress(b.replicationStatus)
+
+//@ func (*BaseStore).recalculateReplicationStatus
+//@   props C19
+//@   requires statusProgress(b.replicationStatus) <= statusMax(b.replicationStatus)
+//@   ensures statusMax(b.replicationStatus) >= old(statusMax(b.replicationStatus))
+//@   ensures statusProgress(b.replicationStatus) >= old(statusProgress(b.replicationStatus))
+//@   ensures statusMax(b.replicationStatus) >= maxTotal
+//@   ensures logLen(b.oplog) <= statusProgress(b.replicationStatus)
+//@   ensures statusProgress(b.replicationStatus) <= statusMax(b.replicationStatus)
+//@   ensures statusMax(b.replicationStatus) == max3(maxTotal, logLen(b.oplog), old(statusMax(b.replicationStatus)))
+//@   ensures statusProgress(b.replicationStatus) == max(min(statusMax(b.replicationStatus), old(statusProgress(b.replicationStatus)) + 1), logLen(b.oplog))
+//@   modifies statusMax(b.replicationStatus), statusProgress(b.replicationStatus)
